@@ -292,10 +292,11 @@ def run_topo(case: Dict) -> CaseResult:
             for i in range(n_ops):
                 srv.dns_register(f"q{i}.test", IPv4Address("10.99.0.1"))
     rec = mon.Recorder()
-    n_l3 = len(ref.l3) + len(ref.hosts)
-    # a ping is 4 echo requests + 4 replies; each may trigger ARP resolution (request + reply, at most 3 target
-    # addresses: destination, route next hop, default next hop) at the sender and at every routing device on the path
-    frame_bound = 8 * (1 + 6 * (len(ref.l3) + 1)) + 8
+    # a ping is 4 echo requests + 4 replies; each of these frames is processed by at most 64 nodes (TTL), and every
+    # processing may trigger ARP resolution for at most 3 addresses (destination, route next hop, default next hop), a
+    # request and a reply each.  (A tighter bound proportional to the path length was wrong: in a routing loop whose
+    # next hop does not answer ARP every one of the ~32 iterations sends a fresh ARP request — 196 frames, all bounded.)
+    frame_bound = 8 * (1 + 64 * 6)
     seen_pairs = set()
     toggled = False
     routed_exchanges = 0
@@ -396,7 +397,7 @@ def run_topo(case: Dict) -> CaseResult:
                     labels.add(f"agree:{k}:{where}:{'ok' if got else 'fail'}")
                 if rec.frames > frame_bound:
                     res.violate("too-many-frames-per-operation",
-                                f"{when}: {rec.frames} distinct frames (bound {frame_bound} for {n_l3} IP nodes)")
+                                f"{when}: {rec.frames} distinct frames (bound {frame_bound})")
                 if rec.max_node_rx_per_frame > 64:
                     res.violate("too-many-receive-events",
                                 f"{when}: one frame object was processed by nodes {rec.max_node_rx_per_frame} times (TTL "
